@@ -3,7 +3,9 @@
  * case layout:  word_type:1 fill:1  then up to 30 records
  *               { offset:2 width:1 value:8 }
  *   word_type  bits 0-1: 0 = default (uint64_t,uint64_t), 1 = u32, 2 = u16,
- *              3 = u8;  bit 2: the records are signed-helper cases
+ *              3 = u8;  bit 2: the records are signed-helper cases;
+ *              bits 3-5 all set (1 case in 8): "huge offset" case, see below
+ *              (bits 6-7 zero: with the final scan of resident pages)
  *   fill       prior contents: 0 zeros, 1 ones, else pseudo-random (seeded)
  *   offset     low byte: bit position inside the word (mod W); high byte:
  *              bits 0-2 word index (mod 6), bits 3-4 position class (as is,
@@ -17,7 +19,18 @@
  * word i / W ("we write in order": the first bit written is the most
  * significant bit of the first word; verified against the default uint64_t
  * instantiation); after every write the guard words and all 6 words equal the
- * reference, and a read of the same range returns the value written. */
+ * reference, and a read of the same range returns the value written.
+ *
+ * huge offset case (c11_bitstream_huge.h): same record layout, the stream is a
+ * sparse mapping of 2^33 + 2^19 bits; offset high byte: bits 0-2 anchor (2^32,
+ * 2^33, 2^31, 3*2^31, random word, random word >= 2^32, one of the first 64
+ * words, 2^32 +- 1024 words), bits 3-4 position relative to the anchor
+ * (anchor + low byte - 128, straddling the anchor, straddling a word boundary
+ * 1-4 words later, ending / starting exactly at a word boundary), bits 5-7
+ * value class; oracle: read-back, word model of the watched windows (first
+ * 64 words, 4 words either side of the range and of every place a narrowed
+ * offset would alias to), split re-read, and a final scan of all resident
+ * pages for stray non-zero words.  Signed-helper bit ignored. */
 #include "vf.h"
 
 #include "c11_bitstream.h"
@@ -282,6 +295,101 @@ static uint64_t rec_value(unsigned width, unsigned cls, uint64_t raw) {
     }
 }
 
+#include "c11_bitstream_huge.h"
+
+/* a "huge offset" case; returns 0 if the sparse mapping is unavailable (the
+ * caller then runs the bytes as an ordinary case) */
+static int huge_case(vf_rd *r, vf_report *rep, const c11_ops *o,
+                     unsigned fillsel, int scan) {
+    hg *h = hg_open(rep, o, fillsel);
+    if (!h) {
+        vf_class("huge.unavailable");
+        return 0;
+    }
+    const unsigned W = o->W;
+    const char *fname = fillsel == 0 ? "zeros" : fillsel == 1 ? "ones" : "mixed";
+    vf_desc(rep, "%s huge fill=%s:", o->name, fname);
+    {
+        char cls[32];
+        snprintf(cls, sizeof(cls), "huge.fill.%s", fname);
+        vf_class(cls);
+        snprintf(cls, sizeof(cls), "%s.huge", o->name);
+        vf_class(cls);
+    }
+    int bad = hg_watch(h, HG_NEAR, 63 - HG_NEAR, HG_FIRST);
+    unsigned n = 0;
+    while (!bad) {
+        const unsigned lo = vf_u8(r), hi = vf_u8(r);
+        const unsigned wbyte = vf_u8(r);
+        const uint64_t raw = vf_raw64(r);
+        const unsigned width = rec_width(W, wbyte);
+        const uint64_t off = hg_rec_offset(W, width, lo, hi, raw);
+        const uint64_t value = rec_value(width, hi >> 5, raw);
+        if (n < 6) {
+            vf_desc(rep, " [%llu+%u]=0x%llx", U(off), width, U(value));
+        }
+        bad = hg_write(h, off, width, value, raw >> 40);
+        if (bad || h->full) {
+            break;
+        }
+        n++;
+        if (n > 1) {
+            vf_evals(1);
+        }
+        if (n >= 30 || vf_left(r) == 0) {
+            break;
+        }
+    }
+    if (h->full) {
+        vf_class("huge.watch.full");
+    }
+    if (n > 6) {
+        vf_desc(rep, " ... (%u writes)", n);
+    }
+    hg_close(h, !bad && scan);
+    return 1;
+}
+
+/* deterministic part: every width of every word type at every position that
+ * contains, ends at or starts at bit 2^31, 2^32, 3*2^31 and 2^33, and at every
+ * position straddling the word boundary after those */
+static void huge_sweep(vf_report *rep, uint64_t *evals) {
+    static const uint64_t anchors[4] = {1ULL << 31, 1ULL << 32, 3ULL << 31,
+                                        1ULL << 33};
+    for (unsigned t = 0; t < 4 && !rep->violated; t++) {
+        const c11_ops *o = g_types[t];
+        const unsigned W = o->W;
+        for (unsigned fill = 0; fill < 3 && !rep->violated; fill++) {
+            hg *h = hg_open(rep, o, fill == 2 ? 77 : fill);
+            if (!h) {
+                vf_class("huge.unavailable");
+                return;
+            }
+            int bad = hg_watch(h, HG_NEAR, 63 - HG_NEAR, HG_FIRST);
+            for (unsigned a = 0; a < 4 && !bad; a++) {
+                for (unsigned width = 1; width <= W && !bad; width++) {
+                    /* j = bits of the field before the boundary */
+                    for (unsigned j = 0; j <= width && !bad; j++) {
+                        for (unsigned k = 0; k < 2 && !bad; k++) {
+                            if (k == 1 && (j == 0 || j == width)) {
+                                continue;
+                            }
+                            const uint64_t off = anchors[a] + (uint64_t)k * W - j;
+                            const uint64_t v1 =
+                                rec_value(width, fill == 1 ? 1 : 2, 0);
+                            *evals += 2;
+                            bad = hg_write(h, off, width, v1, j) ||
+                                  hg_write(h, off, width,
+                                           rec_value(width, 4, 0), width + j);
+                        }
+                    }
+                }
+            }
+            hg_close(h, !bad);
+        }
+    }
+}
+
 static int signed_case(bs *s, size_t off, unsigned width, int64_t v) {
     const c11_ops *o = s->o;
     char site[24];
@@ -319,6 +427,11 @@ void vf_run(vf_rd *r, vf_report *rep) {
     const int sgn = (b0 >> 2) & 1;
     const unsigned fillsel = vf_u8(r);
     const unsigned W = o->W;
+    /* the final scan of all resident pages costs a mincore() over 1.25 GiB of
+     * address space (~0.2 ms): one huge case in four does it */
+    if (((b0 >> 3) & 7) == 7 && huge_case(r, rep, o, fillsel, (b0 >> 6) == 0)) {
+        return;
+    }
     bs s;
     bs_open(&s, rep, o, fillsel);
     vf_desc(rep, "%s%s fill=%s:", o->name, sgn ? " signed" : "",
@@ -469,6 +582,9 @@ void vf_sweep(vf_report *rep) {
             }
             bs_close(&s);
         }
+    }
+    if (!rep->violated) {
+        huge_sweep(rep, &evals);
     }
     vf_evals(evals);
     vf_class_n("sweep.evals", evals);
